@@ -640,6 +640,23 @@ func wideUintEdit(r *Rng, id RegID, raw []byte, stats *Stats) []byte {
 			}
 		}
 	}
+	if r.Chance(0.25) {
+		// a slab reference (tag 255 + 16-byte id; also the payload of an external collision group, tag 254) is
+		// replaced by a different well-formed storable: a small tagged integer, a short string, null
+		var refs []int
+		for i := 0; i+19 <= len(b); i++ {
+			if b[i] == 0xd8 && b[i+1] == 0xff && b[i+2] == 0x50 {
+				refs = append(refs, i)
+			}
+		}
+		if len(refs) > 0 {
+			q := refs[r.Intn(len(refs))]
+			repl := [][]byte{{0xd8, tagU64, 0x05}, {0x61, 'x'}, {0xf6}, {0x00}, {0xd8, tagSome, 0xd8, tagU64, 0x01}, {0x80}}[r.Intn(6)]
+			out := append(append(append([]byte{}, b[:q]...), repl...), b[q+19:]...)
+			stats.Inc("disk.struct.reference-replaced")
+			return out
+		}
+	}
 	if len(pos) == 0 || r.Chance(0.15) {
 		// noise: any byte that reads as an unsigned integer head
 		for try := 0; try < 8 && len(b) > 2; try++ {
